@@ -233,6 +233,41 @@ def fetch(thunk):
         return "raised " + type(e).__name__
 
 
+DIGEST_ABOVE = 1 << 20         # model states with more data than this are printed as (length, Adler-32 sums) only
+
+
+class Digest:
+    """the data region of a large model state, known by length and Adler-32 sums: compares with bytes"""
+    __hash__ = None
+
+    def __init__(self, n, a, b):
+        self.n, self.a, self.b = n, a, b
+
+    def __len__(self):
+        return self.n
+
+    def __eq__(self, other):
+        if isinstance(other, Digest):
+            return (self.n, self.a, self.b) == (other.n, other.a, other.b)
+        if isinstance(other, (bytes, bytearray)):
+            if len(other) != self.n:
+                return False
+            import zlib
+            v = zlib.adler32(bytes(other))
+            return (v & 0xFFFF, v >> 16) == (self.a, self.b)
+        return NotImplemented
+
+    def __ne__(self, other):
+        r = self.__eq__(other)
+        return r if r is NotImplemented else not r
+
+
+def model_data(v):
+    if len(v) == 4 and v[0] == -1:
+        return Digest(v[1], v[2], v[3])
+    return bytes(v)
+
+
 def run_cases(chk, specs, want_acc):
     """specs: [(desc, init_path, contexts, stratum)] -> [Case] with both sides evaluated"""
     cases, jobs = [], []
@@ -271,13 +306,13 @@ def run_cases(chk, specs, want_acc):
         for k, (op, now) in enumerate(zip(ops, nows)):
             mo = container.model_op(op, now, rc=rcs[k])
             mops.append(mo if mo is not None else [9])
-        mcases.append((36, [container.model_state(init), mops, ACC_TYPES]))
+        mcases.append((36, [container.model_state(init), mops, ACC_TYPES, DIGEST_ABOVE]))
     res = common.run_model_sharded(mcases)
     for c, r in zip(cases, res):
         c.msteps = []
         for st in r[1]:
             rc, s, acc = st
-            c.msteps.append({"rc": rc, "n": s[0], "mem": s[1], "tab": s[2], "data": bytes(s[3]), "acc": acc})
+            c.msteps.append({"rc": rc, "n": s[0], "mem": s[1], "tab": s[2], "data": model_data(s[3]), "acc": acc})
     return cases
 
 
@@ -382,6 +417,16 @@ def gen_specs(chk, pid):
         specs.append(("crafted N=4 empty", init, [[("add", pool["EM"][1], None), ("add", sp, "dated"), ("add", pool["D3"][1], None)],
                                                   [("remove", 11), ("set", sp), ("remove", 5)]],
                       "dates at the ends of the 32-bit range and before 1970"))
+    # the block's dates given as time-zone-aware datetimes (UTC, +5:30, -8:00, mixed): the same instants must be stored
+    for j, tz in enumerate(((0, 0), (330, 330), (-480, 60), (60, -720))):
+        sp = copy.deepcopy(rng.choice(pool["EV"][1:3]))
+        sp.tz = tz
+        sp2 = copy.deepcopy(rng.choice(pool["D3"][1:3]))
+        sp2.tz = (tz[1], tz[0])
+        init = crafted(chk.work, "aware%d" % j, 4, [], rng)
+        specs.append(("crafted N=4 empty", init, [[("add", pool["EM"][1], None), ("add", sp, "aware"), ("add", sp2, None)],
+                                                  [("remove", 11), ("set", sp), ("replace", sp2, "again")]],
+                      "block dates given as time-zone-aware datetimes"))
     for j in range(2 if quick else 6):                     # the same in entries somebody else wrote
         stamps = [rng.choice((-1, -2 ** 31, -86400 * 400, 2 ** 31 - 1, -7)) for _ in range(3)]
         live = [(ty, 1, bytes(rng.getrandbits(8) for _ in range(rng.randrange(1, 50))), stamps[0], stamps[1], stamps[2], "old")
@@ -814,7 +859,7 @@ def run(chk, pid):
     if pid == "C03":
         specs = f3b_specs(chk) + gap_specs(chk) + lazy_writer_specs(chk) + specs
     if pid == "C07":
-        specs = gap_specs(chk) + full_comment_specs(chk) + specs
+        specs = gap_specs(chk) + full_comment_specs(chk) + large_invalid_specs(chk) + specs
     if pid in ("C04", "C07", "C10", "C11"):
         specs = held_object_specs(chk) + standin_specs(chk) + specs
     chk.rule = ("operation histories: exhaustive over {add,replace,set} x 3 types x 2 sizes + remove x 3 types up to the stated "
@@ -1074,6 +1119,27 @@ def held_object_specs(chk):
     return out
 
 
+def large_invalid_specs(chk):
+    """C07 at size: a replacement / assignment with an UNENCODABLE block of more than 16 MiB (a long EMG recording whose
+    first or last signal carries a label that cannot be written) over an existing block of that type.  The model never
+    sees the samples (the block has no encoding), so this is cheap — and a pre-flight that skips "expensive" checks for
+    large blocks shows here."""
+    rng = common.rng_for(chk.seed, "largeinvalid")
+    out = []
+    n = (16 << 20) // 8 + 70000                      # two float32 signals: just above 16 MiB
+    frames = [0x3F800000] * n
+    for j, where in enumerate(("first", "last")):
+        labels = [[0x61], [0x62]]
+        labels[0 if where == "first" else 1] = [0x78] * 300 if j == 0 else [0x78, 0x2192]
+        big = Spec("EM", 1, [2, 1000, 0, n, [1, 2], [[labels[0], frames], [labels[1], frames]]], bad="label_" + where)
+        small = container.small_block("EM", rng, 1)
+        ev = container.small_block("EV", rng, 1)
+        init = crafted(chk.work, "largeinvalid%d" % j, 4, [], rng)
+        hist = [[("add", ev, None), ("add", small, "recording")], [("set", big) if j == 0 else ("replace", big, None), ("add", container.small_block("OS", rng, 1), None)]]
+        out.append(("crafted N=4 empty", init, hist, "an unencodable block of more than 16 MiB replacing an existing one"))
+    return out
+
+
 def standin_specs(chk):
     """requests made with an object that is not a Block subclass but offers a block's whole interface (type, format,
     nBytes, dates, _write): stored like the block it stands for, or refused like any wrong object — never half of each"""
@@ -1121,7 +1187,7 @@ def full_comment_specs(chk):
 def replay(chk, pid, path):
     d = json.load(open(path))["replay"]
     chk.rule = "replay of " + path
-    if not d.get("initial_file_hex"):
+    if not d.get("initial_file_hex") or "v_omitted" in json.dumps(d.get("history")):
         run(chk, pid)
         return
     init = os.path.join(chk.work, "replay_init.tdf")
